@@ -85,6 +85,11 @@ def merge_args(n, tier):
     else:
         two = [j for j in subl if len(j) == 2]
         out += [(a, b) for a in two for b in two]
+    # three sublists, every order: a sublist that bridges two groups formed by the earlier ones must unite them (closure is not a single pass)
+    if n >= 3:
+        triples = [((0, 1), (1, 2), (2, 3)), ((0, 1), (2, 3), (0, 3)), ((0, 2), (1, 3), (2, 1))] if n >= 4 else [((0, 1), (1, 2), (0, 2)), ((0, 1), (2, 2), (1, 2))]
+        for tr in triples:
+            out += [tuple(pm) for pm in itertools.permutations(tr)]
     return out
 
 
